@@ -110,3 +110,25 @@ def align(u: str, t, rng: random.Random | None = None):
         x = x - dt.timedelta(days=x.weekday())
         return (x.year, x.month, x.day)
     return t
+
+
+# years whose ISO year has 53 weeks, years beginning on every weekday, leap / century years, the ends of the calendar
+EDGE_YEARS = [1992, 1998, 2004, 2009, 2015, 2020, 2026, 2032, 2037, 2043, 2048, 2017, 2018, 2019, 2021, 2022, 2023, 2024, 2012,
+              1900, 2000, 2100, 2200, 2300, 2400, 1600, 1004, 1000, 1001, 5, 8, 9996, 9000, 2, 400, 404]
+
+
+def edge_date(rng: random.Random):
+    """dates around the edges the period algebra turns on: the turn of the year (inside an ISO week that belongs to the
+    other year, week 53), the end of February, month ends, the two ends of the calendar"""
+    k = rng.random()
+    y = rng.choice(EDGE_YEARS)
+    if k < 0.40:
+        return rng.choice([(y, 12, 28), (y, 12, 29), (y, 12, 30), (y, 12, 31), (y, 1, 1), (y, 1, 2), (y, 1, 3), (y, 1, 4), (y, 1, 5)])
+    if k < 0.60:
+        return rng.choice([(y, 2, 27), (y, 2, 28), (y, 2, _dim(y, 2)), (y, 3, 1), (y, 1, 29), (y, 1, 30), (y, 1, 31), (y, 3, 31)])
+    if k < 0.85:
+        m = rng.randint(1, 12)
+        return rng.choice([(y, m, 1), (y, m, _dim(y, m)), (y, m, max(1, _dim(y, m) - 1)), (y, m, 28), (y, m, 15)])
+    if k < 0.93:
+        return rng.choice([(1, 1, 1), (1, 1, 2), (1, 1, 7), (1, 1, 8), (1, 2, 1), (1, 12, 31), (2, 1, 1), (1, 3, 1)])
+    return rng.choice([(9999, 12, 31), (9999, 12, 1), (9999, 1, 1), (9998, 12, 31), (9999, 12, 27), (9999, 11, 30), (9990, 1, 1)])
